@@ -25,7 +25,7 @@ RULE = ('schedules of the UNMODIFIED batch_span_processor.cc / batch_log_record_
         'non-trivial = at least two threads act; distinct = distinct case line')
 TRUSTED = ['the scheduler shim (sequentially consistent atomics; std::mutex / condition_variable / thread semantics with timeouts and '
            'spurious wake-ups as explicit actions)', 'props/batchcommon.py::abstract (which trace events are protocol events)']
-ASSUMPTIONS = ['sequential consistency', 'the periodic reader is modelled with Shutdown callers one after the other (concurrent Shutdown calls race on the unsynchronised worker_thread_ in MetricReader::Shutdown and are outside the model)']
+ASSUMPTIONS = ['sequential consistency', 'the periodic reader\'s OnShutDown is serialized by shutdown_m_ (D82 repair): the test of joinable() and the join() are one step of the model']
 
 
 def corpus():
